@@ -269,7 +269,7 @@ def random_cases(rng, n):
         if fam == "n":
             arg = {"k": "n", "n": rng.randint(1, 9)}
             if rng.random() < 0.35:
-                fam, arg["pre"] = "nd", rng.choice(["head", "tail", "filter", "proj", "loc", "setidx", "concat"])
+                fam, arg["pre"] = "nd", rng.choice(["head", "tail", "filter", "proj", "loc", "concat"])
         elif fam == "size":
             arg = {"k": "size", "bytes": rng.choice([8, 16, 40, 100, 160, 1000])}
         else:
